@@ -106,6 +106,18 @@ fn stream(name: &str) -> Vec<u8> {
             let lens: Vec<usize> = (0..3000).map(|i| (i % 2) * 1).collect();
             v.extend(rc::message(&msg_of(32, &lens)));
         }
+        "s_longform" => {
+            // small frames and a small command written with 8-octet sizes
+            v.extend(rc::ready(b"PUSH", None));
+            v.extend(rc::message_long(&msg_of(40, &[0])));
+            v.extend(rc::message_long(&msg_of(41, &[1, 0, 5])));
+            v.extend(rc::message(&msg_of(42, &[3])));
+            v.extend(rc::message_long(&msg_of(43, &[255, 256, 2])));
+            let mut c = rc::frame_hdr(0x04, 6, true);
+            c.extend_from_slice(b"\x05READY");
+            v.extend(c);
+            v.extend(rc::message_long(&msg_of(44, &[7, 7])));
+        }
         "s_open" => {
             // ends inside a multipart message and inside a frame
             v.extend(rc::ready(b"PUSH", None));
@@ -118,7 +130,7 @@ fn stream(name: &str) -> Vec<u8> {
     v
 }
 
-const CODEC_STREAMS: [&str; 8] = ["s_short", "s_props", "s_noprops", "s_256", "s_big", "s_huge", "s_many", "s_open"];
+const CODEC_STREAMS: [&str; 9] = ["s_short", "s_props", "s_noprops", "s_256", "s_big", "s_huge", "s_many", "s_longform", "s_open"];
 
 // ------------------------------------------------------- codec-level oracle
 
